@@ -2,8 +2,8 @@ CONSTANTS
   DEV_SellUnheldKeepsCredit = FALSE
   DEV_OversellAccepted = FALSE
   DEV_BuyDepletesBeforeCashCheck = FALSE
-  DEV_LimitRejected = TRUE
-  DEV_UsdLimitRejected = FALSE
+  DEV_LimitRejected = FALSE
+  DEV_UsdLimitRejected = TRUE
   DEV_SettleStrictlyAfterExpiry = FALSE
   Scen = 1
   Level = 1
